@@ -36,3 +36,28 @@ package ast
 //@   requires [tok] typeis(tok, *token.Token) && as(tok, *token.Token) != nil && len(as(tok, *token.Token).Lit) >= 2
 //@   ensures [content] result1 == nil && result0 == str(as(tok, *token.Token).Lit[1:len(as(tok, *token.Token).Lit)-1])
 //@   assigns nothing
+//@
+//@ # the name a syntax symbol goes by in FIRST sets, item sets and tables: a function of the symbol value alone
+//@ spec SymStr(s ast.SyntaxSymbol) string = ite(typeis(s, ast.SyntaxEmpty), "empty", ite(typeis(s, ast.SyntaxError), "error", ite(typeis(s, ast.SyntaxProdId), string(as(s, ast.SyntaxProdId)),
+//@   | ite(typeis(s, ast.SyntaxStringLit), string(as(s, ast.SyntaxStringLit)), string(as(s, ast.SyntaxTokId))))))
+//@ spec isSym(s ast.SyntaxSymbol) bool = typeis(s, ast.SyntaxEmpty) || typeis(s, ast.SyntaxError) || typeis(s, ast.SyntaxProdId) || typeis(s, ast.SyntaxStringLit) || typeis(s, ast.SyntaxTokId)
+//@ func (SyntaxEmpty).SymbolString
+//@   prop C02
+//@   ensures [fun] result == SymStr(iface(this))
+//@   assigns nothing
+//@ func (SyntaxError).SymbolString
+//@   prop C02
+//@   ensures [fun] result == SymStr(iface(this))
+//@   assigns nothing
+//@ func (SyntaxProdId).SymbolString
+//@   prop C02
+//@   ensures [fun] result == SymStr(iface(this))
+//@   assigns nothing
+//@ func (SyntaxStringLit).SymbolString
+//@   prop C02
+//@   ensures [fun] result == SymStr(iface(this))
+//@   assigns nothing
+//@ func (SyntaxTokId).SymbolString
+//@   prop C02
+//@   ensures [fun] result == SymStr(iface(this))
+//@   assigns nothing
